@@ -10,8 +10,8 @@ open Pcore.Object
 #print axioms C17_pos_named
 #print axioms C17_inithash
 #print axioms C17_equals_total
-#print axioms C17_equality_partial
-#print axioms C17_equality_full_false
-#print axioms C17_include_type_ignored
+#print axioms C17_equality
+#print axioms C17_equality_symmetric
+#print axioms C17_include_type_honoured
 #print axioms C17_subtype
 #print axioms C17_subtype_strict
